@@ -3,7 +3,7 @@
 //! complete (h1,h2) class universe, against an exact weight map at every node.
 use checks::cms::{self, CmsCfg};
 use checks::par::{n_threads, par_map};
-use checks::runner::{parse_args, Runner};
+use checks::runner::{parse_args, Runner, Viol};
 use serde_json::json;
 
 fn main() {
@@ -62,6 +62,80 @@ fn main() {
             run.violation(v);
         }
     }
+    // ---- counters close to the top of their type (u8): weights 100 / 150 / 5 / 1, every sequence up to depth 4 ----
+    // While the total weight fits the counter type every call must return and keep the bounds. Once it does not, a call
+    // may panic (documented overflow; the branch ends there) - but a call that RETURNS must still not underestimate:
+    // an increment that is silently dropped or wrapped is exactly what "never underestimates" forbids.
+    {
+        use checks::hashers::Key;
+        let mut cases = 0u64;
+        let mut bad: Option<(String, Vec<String>)> = None;
+        for (w, d) in [(2usize, 2usize), (3, 2), (2, 3)] {
+            let cfg = CmsCfg::new(w, d, (0..d as u64).collect());
+            let n = cfg.universe.len();
+            let elems: Vec<usize> = (0..n).step_by((n / 4).max(1)).take(5).collect();
+            let weights = [100u8, 150, 5, 1];
+            fn rec(cfg: &CmsCfg, s: &checks::cms::Cms<u8>, truth: &mut Vec<u64>, total: u64, depth: usize, elems: &[usize], weights: &[u8], hist: &mut Vec<String>, cases: &mut u64, bad: &mut Option<(String, Vec<String>)>) {
+                if depth == 0 || bad.is_some() {
+                    return;
+                }
+                for &e in elems {
+                    for &wt in weights {
+                        *cases += 1;
+                        let mut t = s.clone();
+                        let key = Key(cfg.universe[e]);
+                        hist.push(format!("add_n({}, {})", cfg.describe(e), wt));
+                        let r = mccore::panics::catch(|| if wt == 1 { t.add(&key) } else { t.add_n(&key, &wt) });
+                        match r {
+                            Err(p) => {
+                                if total + wt as u64 <= 255 {
+                                    *bad = Some((format!("panicked although the total weight {} fits u8: {}", total + wt as u64, p), hist.clone()));
+                                }
+                                // overflow panic: the branch ends
+                            }
+                            Ok(ret) => {
+                                truth[e] += wt as u64;
+                                let fits = total + wt as u64 <= 255;
+                                for (u, &tr) in truth.iter().enumerate() {
+                                    if tr == 0 && u != e {
+                                        continue;
+                                    }
+                                    let q = match mccore::panics::catch(|| t.query_point(&Key(cfg.universe[u]))) { Ok(q) => q as u64, Err(_) => continue };
+                                    if q < tr.min(255) {
+                                        *bad = Some((format!("query_point({}) = {} below the true weight {} (the call returned normally{})", cfg.describe(u), q, tr, if fits { "" } else { "; the total no longer fits u8, so a panic would have been legitimate, a silent underestimate is not" }), hist.clone()));
+                                    }
+                                    if fits && q > total + wt as u64 {
+                                        *bad = Some((format!("query_point({}) = {} above the total weight {}", cfg.describe(u), q, total + wt as u64), hist.clone()));
+                                    }
+                                }
+                                if fits {
+                                    let q = t.query_point(&key) as u64;
+                                    if ret as u64 != q {
+                                        *bad = Some((format!("add_n returned {} but query_point right afterwards is {}", ret, q), hist.clone()));
+                                    }
+                                }
+                                if bad.is_none() {
+                                    rec(cfg, &t, truth, total + wt as u64, depth - 1, elems, weights, hist, cases, bad);
+                                }
+                                truth[e] -= wt as u64;
+                            }
+                        }
+                        hist.pop();
+                        if bad.is_some() {
+                            return;
+                        }
+                    }
+                }
+            }
+            let s0 = cfg.fresh::<u8>();
+            let mut truth = vec![0u64; n];
+            rec(&cfg, &s0, &mut truth, 0, 4, &elems, &weights, &mut vec![], &mut cases, &mut bad);
+            if let Some((msg, hist)) = bad.take() {
+                run.violation(Viol { property: "C02".into(), signature: format!("cms(w={},d={},u8) near the counter maximum", w, d), message: format!("cms(w={},d={},u8 counters): {}", w, d, msg), replay: json!({"structure": "CountMinSketch", "w": w, "d": d, "counter": "u8", "shift_vector": cfg.f, "history": hist}) });
+            }
+        }
+        run.ev.set("near_overflow_u8_cases", json!(cases));
+    }
     // ---- medium-scale deterministic differential runs (not exhaustive; catch scale-dependent defects) ----
     {
         let (ms, mv, mj) = checks::medium::run_all(&["cms"], run.thorough(), checks::par::n_threads());
@@ -80,7 +154,7 @@ fn main() {
     run.ev.set("samples", json!([{"config": "w=2,d=3,f=[0,1,2],u8", "history": ["add(e1(h1=1,h2=0))", "add_n(e0(h1=0,h2=0), 5)", "merge(sketch fed [e1,e1,e5])", "clear()", "add(e4(h1=0,h2=0,offset))"], "checked": "true(x) <= query_point(x) <= total for every element of the universe; add's return value; single-distinct exactness"}]));
     run.ev.set("rule", json!("every operation sequence up to the listed depth over add(e) for every (h1,h2) class (+ same-class distinct elements), add_n(e,{0,2,5}), merge(pre-built sketches), clear; one tree per (w,d) shape x shift vector x counter type"));
     run.ev.assume("hash classes enumerated through the TableHasher seam (h1,h2 both in [0,w), raw values also offset by multiples of w near 2^63)");
-    run.ev.assume("totals stay below 255 so that no counter type overflows (overflow is outside the property)");
+    run.ev.assume("in the history trees totals stay far below 255; a separate u8 sweep drives the counters to the top of their type: calls may panic once the total no longer fits, calls that return must not underestimate");
     // the Extend implementations deliver the same streams: extend(chunk1); extend(chunk2) == add loop
     let (xp_cases, xp_viols) = checks::extendpaths::cms(if thorough { 5 } else { 4 });
     for v in xp_viols {
